@@ -69,7 +69,10 @@ def r16_12(prog: Program, rep):
     from sa.flow import reach
     leak = []
     for t, lab in tests.items():
-        r = reach(g, [b for b, l in g.succ[t] if l == lab], include_srcs=True, avoid=set(k for k in g.nodes if g.nodes[k].kind == "for_iter"))
+        # None-flag sensitive: an extracted predicate may answer "symbolic" by returning None (`sha = None ... if sha: store`)
+        from sa.flow import reach_ps
+        r = reach_ps(g, [b for b, l in g.succ[t] if l == lab], avoid=set(k for k in g.nodes if g.nodes[k].kind == "for_iter"
+                                                                        and not (isinstance(g.nodes[k].ast.target, ast.Name) and g.nodes[k].ast.target.id == "_once")))
         leak += [x for x in stores if x in r]
     # a path that avoids the marker test is accepted only through the 'no loose file' side of a None test of the same contents
     # (a ref that exists only in packed-refs cannot be symbolic)
@@ -373,10 +376,15 @@ def run(prog: Program, rep, tier="quick"):
         defs = [s_ for s_ in ast.walk(f.node) if isinstance(s_, ast.Assign) and isinstance(s_.targets[0], ast.Name) and s_.targets[0].id == "realname"]
         if not defs:
             continue
-        first = min(d.lineno for d in defs)
         pnames = [a.arg for a in f.node.args.args[1:2]]
+        # "after the resolution" by control flow, not by line number (inlined helper code keeps the helper's line numbers)
+        g7 = cfg_of(prog, f)
+        from sa.flow import reach as _reach7
+        from sa.cfg import node_calls as _nc7
+        after = _reach7(g7, [i for i, n in g7.nodes.items() if n.kind == "stmt" and n.ast in defs])
+        later_calls = {id(c) for i in after for c in _nc7(g7.nodes[i])}
         for c in ast.walk(f.node):
-            if isinstance(c, ast.Call) and getattr(c, "lineno", 0) > first and (callee_name(c) == "refpath" or dotted(c.func) == "os.path.dirname"
+            if isinstance(c, ast.Call) and id(c) in later_calls and (callee_name(c) == "refpath" or dotted(c.func) == "os.path.dirname"
                                                                                     or (callee_name(c) in probe_helpers and callee_name(c) != f.name)) and c.args:
                 used = {x.id for x in ast.walk(c.args[0]) if isinstance(x, ast.Name)}
                 if not used & (set(pnames) | {"realname"}):
